@@ -47,10 +47,10 @@ fn fixed_lengths(t: Tier) -> Vec<Case> {
         for l in 0..lead {
             let mut ops = Vec::new();
             if l > 0 {
-                ops.push(Op::Blob(BlobSpec { len: [0u32, 952, 956, 1001][l], seed: 77, chunk: 0 }));
+                ops.push(Op::Blob(BlobSpec { len: [0u32, 952, 956, 1001][l], seed: 77, chunk: 0, xmlish: false }));
             }
-            ops.push(Op::Blob(BlobSpec { len, seed: len as u64 * 2 + 1, chunk: 0 }));
-            ops.push(Op::Blob(BlobSpec { len: 5, seed: 99, chunk: 0 }));
+            ops.push(Op::Blob(BlobSpec { len, seed: len as u64 * 2 + 1, chunk: 0, xmlish: false }));
+            ops.push(Op::Blob(BlobSpec { len: 5, seed: 99, chunk: 0, xmlish: false }));
             out.push(Case { program: Program { guid: "{len-sweep}".into(), ops, end: End::Finalize }, perturb: vec![], damage: vec![], order: vec![] });
         }
     }
